@@ -325,7 +325,16 @@ fn survey(name: &str, data: Vec<u8>, pw: Vec<u8>, max_objects: usize, skip_encry
             *excluded += 1;
             continue;
         }
-        let score = calls.iter().map(|c| match c { Call::RawImageData(_) => 10, Call::StreamData(_) => 4, Call::GetFont(_) => 1, Call::GetPagesNode(_) => 1, _ => 0 }).sum::<i32>();
+        let mut score = calls.iter().map(|c| match c { Call::RawImageData(_) => 10, Call::StreamData(_) => 4, Call::GetFont(_) => 1, Call::GetPagesNode(_) => 1, _ => 0 }).sum::<i32>();
+        // streams whose dictionary holds a reference (indirect /Length, /DecodeParms, dangling entries) load
+        // differently as different types: always take them
+        if let Ok(f) = FileOptions::uncached().password(&pw).load(data.clone()) {
+            if let Ok(Primitive::Stream(st)) = f.resolver().resolve(PlainRef { id: n, gen: 0 }) {
+                if st.info.iter().any(|(_, v)| matches!(v, Primitive::Reference(_))) {
+                    score += 20;
+                }
+            }
+        }
         scored.push((score, n, calls));
     }
     scored.sort_by(|a, b| b.0.cmp(&a.0).then(a.1.cmp(&b.1)));
